@@ -1,3 +1,5 @@
 import TxV.Util.AuditCmd
 import TxV.Props.C04
+import TxV.Props.SourceTie
 #txv_audit TxV.Props.C04
+#txv_audit TxV.Props.SourceTie
